@@ -1,5 +1,1205 @@
+/-
+  C01 — The reference semantics (`Ink/Source.lean`) as a specification, and "exactly once".
+
+  "For every Ink program in the supported core of the language, compiling it and playing it
+  produces, along every sequence of player choices, exactly the lines of text, per-line tags,
+  offered choices, end-of-story status, final global variable values and knot/stitch visit counts
+  that the Ink language rules prescribe.  Effects written after a line end happen exactly once,
+  however far the engine looked ahead to decide where the line ends."
+
+  The equality of the compiled story's behaviour with `Source.play` is tested (differential
+  oracle).  Proved here:
+
+  A. Arithmetic of the specification: `wrap32_range`, `wrap32_id`, `wrap32_congr`, `intOp_range`,
+     `intOp_div_zero`, `intOp_error_iff`, `wrap32_eq_wrapI32` (the spec's wrap-around IS the
+     runtime model's).
+  B. Output rules: `cleanText_idem`, `cleanText_no_edge_blanks`, `cleanText_no_double_blank`,
+     `trimBlanks_idem`, `linesOf_no_empty_line`, `linesOf_texts_clean`, `linesOf_tags_clean`.
+  C. Structure of a play: `play_turns_nonempty`, `play_turns_length`, `play_status_choice_iff`
+     (and the short form `play_status_choice_iff'`), THE PREFIX THEOREM `play_prefix` (full
+     prefix, the last turn included), `play_take`, `play_append_of_not_choice` (a finished play
+     ignores further input: the whole transcript is equal), `play_extend` (a choice on offer
+     gives exactly one more turn).
+  D. Exactly once on the runtime model: `restoreSnapshot_state`, `discardSnapshot_keeps`,
+     `stateSnapshot_saves`, `lookahead_undone`, `continueSingleStep_rewind` (a step reports a
+     line end ONLY by rewinding to the snapshot), `continueSingleStep_snapshot` (looking ahead
+     never alters the snapshot held), `stepLoop_newline` (the loop-level statement).
+  E. Non-vacuity: a two-knot program with one choice (`demo`), and a runtime-model story that
+     sets a temporary while looking ahead and rewinds over it (`exStory4`).
+-/
 import Ink.Source
+import Proofs.C08Sliced
+
 namespace Ink
 namespace C01
+
+section Spec
+open Ink.Source
+
+deriving instance DecidableEq for Source.Val, Source.Line, Source.Turn, Source.Status
+
+/-! ## A. Arithmetic of the specification -/
+
+/-- the 32-bit range -/
+def InRange (n : Int) : Prop := -2147483648 ≤ n ∧ n ≤ 2147483647
+
+theorem wrap32_range (n : Int) : -2147483648 ≤ wrap32 n ∧ wrap32 n ≤ 2147483647 := by
+  unfold wrap32; omega
+
+theorem wrap32_id {n : Int} (h1 : -2147483648 ≤ n) (h2 : n ≤ 2147483647) : wrap32 n = n := by
+  unfold wrap32; omega
+
+theorem wrap32_congr (n : Int) : ∃ k : Int, wrap32 n = n + k * 4294967296 := by
+  refine ⟨-((n + 2147483648) / 4294967296), ?_⟩
+  unfold wrap32; omega
+
+theorem wrap32_idem (n : Int) : wrap32 (wrap32 n) = wrap32 n :=
+  wrap32_id (wrap32_range n).1 (wrap32_range n).2
+
+theorem wrap32_eq_wrapI32 : Source.wrap32 = Ink.wrapI32 := rfl
+
+theorem tdiv_range {x y : Int} (hx : InRange x) (hy : InRange y) (h0 : y ≠ 0)
+    (hov : ¬ (x = -2147483648 ∧ y = -1)) : InRange (Int.tdiv x y) := by
+  unfold InRange at *
+  by_cases hy1 : y = 1
+  · subst hy1; rw [Int.tdiv_one]; exact hx
+  by_cases hym : y = -1
+  · subst hym
+    have : Int.tdiv x (-1) = -x := by rw [Int.tdiv_neg, Int.tdiv_one]
+    rw [this]; omega
+  · have h := Int.natAbs_tdiv x y
+    have h2 : y.natAbs ≥ 2 := by omega
+    have h3 : x.natAbs.div y.natAbs ≤ x.natAbs / 2 := by
+      show x.natAbs / y.natAbs ≤ x.natAbs / 2
+      exact Nat.div_le_div_left h2 (by omega)
+    omega
+
+theorem tmod_range {x : Int} (y : Int) (hx : InRange x) : InRange (Int.tmod x y) := by
+  unfold InRange at *
+  have h := Int.natAbs_tmod x y
+  have h2 : x.natAbs % y.natAbs ≤ x.natAbs := Nat.mod_le _ _
+  by_cases h0 : 0 ≤ x
+  · have := Int.tmod_nonneg y h0
+    omega
+  · have h3 : 0 ≤ (-x).tmod y := Int.tmod_nonneg y (by omega)
+    rw [Int.neg_tmod] at h3
+    omega
+
+/-- Results of the integer operators stay in the 32-bit range. -/
+theorem intOp_range {op : BinOp} {x y r : Int} (hx : InRange x) (hy : InRange y)
+    (h : intOp op x y = .ok (.int r)) : InRange r := by
+  cases op <;> simp only [intOp] at h
+  case add => cases h; exact wrap32_range _
+  case sub => cases h; exact wrap32_range _
+  case mul => cases h; exact wrap32_range _
+  case div =>
+    split at h
+    · cases h
+    · rename_i hc
+      cases h
+      simp only [Bool.or_eq_true, Bool.and_eq_true, beq_iff_eq, not_or, not_and] at hc
+      exact tdiv_range hx hy hc.1 (fun ⟨a, b⟩ => hc.2 a b)
+  case mod =>
+    split at h
+    · cases h
+    · cases h; exact tmod_range y hx
+  all_goals cases h
+
+/-- Division and modulo by zero are the story error `div_zero`. -/
+theorem intOp_div_zero (x : Int) :
+    intOp .div x 0 = .error "div_zero" ∧ intOp .mod x 0 = .error "div_zero" := by
+  constructor <;> simp [intOp]
+
+/-- ... and these, with the one quotient that does not fit, are the only errors of `intOp`. -/
+theorem intOp_error_iff (op : BinOp) (x y : Int) (e : String) :
+    intOp op x y = .error e ↔
+      (op = .div ∨ op = .mod) ∧ (y = 0 ∨ (x = -2147483648 ∧ y = -1)) ∧ e = "div_zero" := by
+  cases op <;> simp [intOp]
+  all_goals
+    constructor
+    · intro h; split at h
+      · rename_i hc; cases h; simpa using hc
+      · cases h
+    · rintro ⟨hc, rfl⟩
+      rw [if_pos hc]
+
+/-! ## B. Output rules -/
+
+/-- What may follow a non-blank character in cleaned text. -/
+inductive CleanTail : List Char → Prop where
+  | nil : CleanTail []
+  | char {c : Char} {cs : List Char} : isBlankChar c = false → CleanTail cs → CleanTail (c :: cs)
+  | gap {c : Char} {cs : List Char} : isBlankChar c = false → CleanTail cs → CleanTail (' ' :: c :: cs)
+
+/-- Cleaned text: empty, or a non-blank character followed by a clean tail. -/
+inductive Clean : List Char → Prop where
+  | nil : Clean []
+  | cons {c : Char} {cs : List Char} : isBlankChar c = false → CleanTail cs → Clean (c :: cs)
+
+theorem CleanTail.snoc {t : List Char} (h : CleanTail t) {c : Char} (hc : isBlankChar c = false) :
+    CleanTail (t ++ [c]) := by
+  induction h with
+  | nil => exact .char hc .nil
+  | char h1 _ ih => exact .char h1 ih
+  | gap h1 _ ih => exact .gap h1 ih
+
+theorem CleanTail.snocGap {t : List Char} (h : CleanTail t) {c : Char} (hc : isBlankChar c = false) :
+    CleanTail (t ++ [' ', c]) := by
+  induction h with
+  | nil => exact .gap hc .nil
+  | char h1 _ ih => exact .char h1 ih
+  | gap h1 _ ih => exact .gap h1 ih
+
+theorem Clean.snoc {l : List Char} (h : Clean l) {c : Char} (hc : isBlankChar c = false) :
+    Clean (l ++ [c]) := by
+  cases h with
+  | nil => exact .cons hc .nil
+  | cons h1 h2 => exact .cons h1 (h2.snoc hc)
+
+theorem Clean.snocGap {l : List Char} (h : Clean l) (hne : l ≠ []) {c : Char} (hc : isBlankChar c = false) :
+    Clean (l ++ [' ', c]) := by
+  cases h with
+  | nil => exact absurd rfl hne
+  | cons h1 h2 => exact .cons h1 (h2.snocGap hc)
+
+theorem go_clean (cs : List Char) : ∀ (p : Bool) (acc : List Char), Clean acc.reverse →
+    Clean (cleanText.go cs p acc) := by
+  induction cs with
+  | nil => intro p acc h; simpa [cleanText.go] using h
+  | cons c cs ih =>
+    intro p acc h
+    rw [cleanText.go]
+    split
+    · exact ih _ _ h
+    · rename_i hb
+      have hb : isBlankChar c = false := by simpa using hb
+      split
+      · rename_i hp
+        apply ih
+        have e : (c :: ' ' :: acc).reverse = acc.reverse ++ [' ', c] := by simp
+        rw [e]
+        refine h.snocGap ?_ hb
+        intro h0
+        have : acc = [] := by simpa using h0
+        simp [this] at hp
+      · apply ih
+        rw [List.reverse_cons]
+        exact h.snoc hb
+
+/-- On clean text the collapse of blanks changes nothing. -/
+theorem go_fix_tail {t : List Char} (h : CleanTail t) : ∀ (acc : List Char), acc ≠ [] →
+    cleanText.go t false acc = acc.reverse ++ t := by
+  induction h with
+  | nil => intro acc _; simp [cleanText.go]
+  | @char c cs h1 _ ih =>
+    intro acc hne
+    rw [cleanText.go]
+    simp only [h1, Bool.false_eq_true, ↓reduceIte, Bool.false_and]
+    rw [ih _ (by simp)]; simp
+  | @gap c cs h1 _ ih =>
+    intro acc hne
+    have hs : isBlankChar ' ' = true := by decide
+    rw [cleanText.go]
+    simp only [hs, ↓reduceIte]
+    rw [cleanText.go]
+    have hne' : acc.isEmpty = false := by cases acc <;> simp_all
+    simp only [h1, Bool.false_eq_true, ↓reduceIte, Bool.true_and, hne', Bool.not_false]
+    rw [ih _ (by simp)]; simp
+
+theorem go_fix {l : List Char} (h : Clean l) : cleanText.go l false [] = l := by
+  cases h with
+  | nil => simp [cleanText.go]
+  | @cons c cs h1 h2 =>
+    rw [cleanText.go]
+    simp only [h1, Bool.false_eq_true, ↓reduceIte, Bool.false_and]
+    rw [go_fix_tail h2 _ (by simp)]; simp
+
+theorem cleanText_toList (s : String) : (cleanText s).toList = cleanText.go s.toList false [] := by
+  unfold cleanText; exact String.toList_ofList
+
+theorem cleanText_clean (s : String) : Clean (cleanText s).toList := by
+  rw [cleanText_toList]; exact go_clean _ _ _ .nil
+
+/-- Cleaning is idempotent. -/
+theorem cleanText_idem (s : String) : cleanText (cleanText s) = cleanText s := by
+  have h := go_fix (cleanText_clean s)
+  show String.ofList (cleanText.go (cleanText s).toList false []) = cleanText s
+  rw [h, String.ofList_toList]
+
+theorem CleanTail.getLast {t : List Char} (h : CleanTail t) :
+    ∀ c ∈ t.getLast?, isBlankChar c = false := by
+  induction h with
+  | nil => simp
+  | @char c cs h1 h2 ih =>
+    intro d hd
+    cases cs with
+    | nil => simp at hd; subst hd; exact h1
+    | cons e es => rw [List.getLast?_cons_cons] at hd; exact ih d hd
+  | @gap c cs h1 h2 ih =>
+    intro d hd
+    rw [List.getLast?_cons_cons] at hd
+    cases cs with
+    | nil => simp at hd; subst hd; exact h1
+    | cons e es => rw [List.getLast?_cons_cons] at hd; exact ih d hd
+
+/-- Cleaned text neither starts nor ends with a blank. -/
+theorem cleanText_no_edge_blanks (s : String) :
+    (∀ c, (cleanText s).toList.head? = some c → isBlankChar c = false)
+    ∧ (∀ c, (cleanText s).toList.getLast? = some c → isBlankChar c = false) := by
+  have h := cleanText_clean s
+  generalize (cleanText s).toList = l at h
+  cases h with
+  | nil => simp
+  | @cons c cs h1 h2 =>
+    constructor
+    · intro d hd; simp at hd; subst hd; exact h1
+    · intro d hd
+      cases cs with
+      | nil => simp at hd; subst hd; exact h1
+      | cons e es => rw [List.getLast?_cons_cons] at hd; exact h2.getLast d hd
+
+theorem CleanTail.no_double {t : List Char} (h : CleanTail t) :
+    ∀ a b, [a, b] <:+: t → ¬ (isBlankChar a = true ∧ isBlankChar b = true) := by
+  induction h with
+  | nil => intro a b hi; simp at hi
+  | @char c cs h1 h2 ih =>
+    intro a b hi
+    rcases List.infix_cons_iff.1 hi with hp | hi'
+    · rw [List.cons_prefix_cons] at hp
+      rw [hp.1, h1]; simp
+    · exact ih a b hi'
+  | @gap c cs h1 h2 ih =>
+    intro a b hi
+    rcases List.infix_cons_iff.1 hi with hp | hi'
+    · rw [List.cons_prefix_cons, List.cons_prefix_cons] at hp
+      rw [hp.2.1, h1]; simp
+    · rcases List.infix_cons_iff.1 hi' with hp | hi''
+      · rw [List.cons_prefix_cons] at hp
+        rw [hp.1, h1]; simp
+      · exact ih a b hi''
+
+/-- Cleaned text has no two adjacent blanks. -/
+theorem cleanText_no_double_blank (s : String) (a b : Char)
+    (h : [a, b] <:+: (cleanText s).toList) : ¬ (isBlankChar a = true ∧ isBlankChar b = true) := by
+  have hc := cleanText_clean s
+  generalize (cleanText s).toList = l at h hc
+  cases hc with
+  | nil => simp at h
+  | @cons c cs h1 h2 =>
+    rcases List.infix_cons_iff.1 h with hp | hi
+    · rw [List.cons_prefix_cons] at hp
+      rw [hp.1, h1]; simp
+    · exact h2.no_double a b hi
+
+/-! ### `trimBlanks` -/
+
+def trimL (l : List Char) : List Char :=
+  ((l.dropWhile isBlankChar).reverse.dropWhile isBlankChar).reverse
+
+theorem dropWhile_eq_self_of_head {p : Char → Bool} {l : List Char}
+    (h : ∀ c, l.head? = some c → p c = false) : l.dropWhile p = l := by
+  cases l with
+  | nil => rfl
+  | cons a r => rw [List.dropWhile_cons, h a rfl]; simp
+
+theorem head_dropWhile_not (p : Char → Bool) (l : List Char) :
+    ∀ c, (l.dropWhile p).head? = some c → p c = false := by
+  intro c hc
+  have := List.head?_dropWhile_not p l
+  rw [hc] at this
+  simpa using this
+
+theorem trimL_idem (l : List Char) : trimL (trimL l) = trimL l := by
+  unfold trimL
+  generalize hm : l.dropWhile isBlankChar = m
+  generalize hr : m.reverse.dropWhile isBlankChar = r
+  -- `r.reverse` is a prefix of `m`
+  have hpre : r.reverse <+: m := by
+    have : r <:+ m.reverse := hr ▸ List.dropWhile_suffix _
+    have := List.reverse_prefix.2 this
+    simpa using this
+  have h1 : r.reverse.dropWhile isBlankChar = r.reverse := by
+    apply dropWhile_eq_self_of_head
+    intro c hc
+    obtain ⟨t, ht⟩ := hpre
+    have : m.head? = some c := by
+      rw [← ht]
+      cases hrr : r.reverse with
+      | nil => rw [hrr] at hc; cases hc
+      | cons x xs => rw [hrr] at hc; simpa using hc
+    rw [← hm] at this
+    exact head_dropWhile_not _ _ c this
+  rw [h1, List.reverse_reverse]
+  congr 1
+  apply dropWhile_eq_self_of_head
+  rw [← hr]
+  exact head_dropWhile_not _ _
+
+theorem trimBlanks_toList (s : String) : (trimBlanks s).toList = trimL s.toList := by
+  unfold trimBlanks trimL; exact String.toList_ofList
+
+theorem trimBlanks_idem (s : String) : trimBlanks (trimBlanks s) = trimBlanks s := by
+  have h : trimBlanks (trimBlanks s) = String.ofList (trimL (trimBlanks s).toList) := rfl
+  rw [h, trimBlanks_toList, trimL_idem]
+  rfl
+
+/-! ### `linesOf` -/
+
+/-- The line-finishing function inside `linesOf`. -/
+def finishLine (txt : String) (tags : List String) (acc : List Line) : List Line :=
+  let t := cleanText txt
+  if t == "" && tags.isEmpty then acc else { text := t, tags := tags.reverse } :: acc
+
+theorem linesOf_eq (items : List OutItem) : linesOf items = linesOf.go finishLine items "" [] [] := rfl
+
+/-- What every line read off a stream satisfies. -/
+def GoodLine (l : Line) : Prop :=
+  (l.text ≠ "" ∨ l.tags ≠ []) ∧ cleanText l.text = l.text ∧ ∀ t ∈ l.tags, cleanText t = t
+
+theorem finishLine_good (txt : String) (tags : List String) (acc : List Line)
+    (h : ∀ l ∈ acc, GoodLine l) (htags : ∀ t ∈ tags, cleanText t = t) :
+    ∀ l ∈ finishLine txt tags acc, GoodLine l := by
+  unfold finishLine
+  simp only
+  split
+  · exact h
+  · rename_i hc
+    intro l hl
+    rcases List.mem_cons.1 hl with rfl | hl
+    · refine ⟨?_, cleanText_idem txt, fun t ht => htags t (List.mem_reverse.1 ht)⟩
+      simp only [Bool.and_eq_true, beq_iff_eq, List.isEmpty_iff, not_and] at hc
+      by_cases ht : cleanText txt = ""
+      · right; simpa using hc ht
+      · left; exact ht
+    · exact h l hl
+
+theorem go_good (items : List OutItem) : ∀ (txt : String) (tags : List String) (acc : List Line),
+    (∀ l ∈ acc, GoodLine l) → (∀ t ∈ tags, cleanText t = t) →
+    ∀ l ∈ linesOf.go finishLine items txt tags acc, GoodLine l := by
+  induction items with
+  | nil =>
+    intro txt tags acc h ht l hl
+    rw [linesOf.go, List.mem_reverse] at hl
+    exact finishLine_good txt tags acc h ht l hl
+  | cons it r ih =>
+    intro txt tags acc h ht
+    cases it with
+    | text s => rw [linesOf.go]; exact ih _ _ _ h ht
+    | glue => rw [linesOf.go]; exact ih _ _ _ h ht
+    | tag t =>
+      rw [linesOf.go]
+      refine ih _ _ _ h ?_
+      intro u hu
+      rcases List.mem_cons.1 hu with rfl | hu
+      · exact cleanText_idem t
+      · exact ht u hu
+    | nl => rw [linesOf.go]; exact ih _ _ _ (finishLine_good txt tags acc h ht) (by simp)
+
+/-- The reader never produces an empty line without tags. -/
+theorem linesOf_no_empty_line (items : List OutItem) :
+    ∀ l ∈ linesOf items, l.text ≠ "" ∨ l.tags ≠ [] := fun l hl =>
+  (go_good items "" [] [] (by simp) (by simp) l (linesOf_eq items ▸ hl)).1
+
+/-- The text of every line is clean (single inner blanks, no blanks at the ends). -/
+theorem linesOf_texts_clean (items : List OutItem) :
+    ∀ l ∈ linesOf items, cleanText l.text = l.text := fun l hl =>
+  (go_good items "" [] [] (by simp) (by simp) l (linesOf_eq items ▸ hl)).2.1
+
+/-- ... and so is every tag. -/
+theorem linesOf_tags_clean (items : List OutItem) :
+    ∀ l ∈ linesOf items, ∀ t ∈ l.tags, cleanText t = t := fun l hl =>
+  (go_good items "" [] [] (by simp) (by simp) l (linesOf_eq items ▸ hl)).2.2
+
+/-! ## C. Structure of a play -/
+
+/-- The final report of `play` (verbatim). -/
+def mkReport (prog : Program) (turns : List Turn) (st2 : Source.St) (status : Status) (errors : List String)
+    (turn : Turn) : Transcript :=
+  { turns := (turn :: turns).reverse, status := status, errors := errors, globals := st2.globals,
+    visits := (allVisitKeys prog).map (fun k => (k, st2.visitCount k)) }
+
+/-- What one round of `play` computes before it looks at the player's input. -/
+structure Round where
+  turn : Turn
+  st2 : Source.St
+  visible : List Pending
+  /-- `some`: the play ends here whatever the input; `none`: choices are on offer -/
+  fin : Option (Status × List String)
+
+def round (prog : Program) (fuel : Nat) (st : Source.St) : Round :=
+  let r := runTurn prog fuel st
+  let st1 := r.2
+  let lines := linesOf st1.out.reverse
+  let visible := st1.pending.filter (!·.invisible)
+  let offered := visible.map (fun p => ({ text := p.text, tags := p.tags } : Line))
+  let st2 := { st1 with out := [], fnStarts := [] }
+  match r.1 with
+  | .failed kind =>
+    { turn := { lines := lines, choices := [] }, st2 := st2, visible := visible,
+      fin := some (if kind = "fuel" then (.fuel, []) else (.error, [kind])) }
+  | .stopped stop =>
+    let turn : Turn := { lines := lines, choices := offered }
+    if visible.isEmpty then
+      { turn := turn, st2 := st2, visible := visible,
+        fin := some (match stop with
+          | .end => (.end, [])
+          | .done => (.done, [])
+          | .outOfContent =>
+            if !st2.pending.isEmpty then (.done, [])
+            else if st2.stack.any (!·.isThread) then (.done, ["tunnel_end"])
+            else (.done, ["ran_out"])) }
+    else { turn := turn, st2 := st2, visible := visible, fin := none }
+
+/-- The loop of `play`, one round unfolded. -/
+theorem loop_eq (prog : Program) (fuel n : Nat) (st : Source.St) (todo : List Nat) (turns : List Turn) :
+    play.loop prog fuel n st todo turns =
+      match (round prog fuel st).fin with
+      | some (s, e) => mkReport prog turns (round prog fuel st).st2 s e (round prog fuel st).turn
+      | none =>
+        match n, todo with
+        | n + 1, i :: rest =>
+          match (round prog fuel st).visible[i]? with
+          | some p => play.loop prog fuel n ((round prog fuel st).st2.choose p true) rest ((round prog fuel st).turn :: turns)
+          | none => mkReport prog turns (round prog fuel st).st2 .choice [] (round prog fuel st).turn
+        | _, _ => mkReport prog turns (round prog fuel st).st2 .choice [] (round prog fuel st).turn := by
+  rw [play.loop]
+  unfold round mkReport
+  rcases runTurn prog fuel st with ⟨why, st1⟩
+  simp only
+  split
+  · rfl
+  · rename_i kind hk
+    simp only [if_neg (show ¬ kind = "fuel" from hk)]
+  · simp only
+    split
+    · split <;> try rfl
+      split
+      · rfl
+      · split <;> rfl
+    · rfl
+
+theorem round_fin_some {prog : Program} {fuel : Nat} {st : Source.St} {s : Status} {e : List String}
+    (h : (round prog fuel st).fin = some (s, e)) :
+    s ≠ .choice ∧ (round prog fuel st).turn.choices = [] := by
+  unfold round at h ⊢
+  generalize runTurn prog fuel st = r at h ⊢
+  rcases r with ⟨why, st1⟩
+  cases why with
+  | failed kind =>
+    simp only [Option.some.injEq] at h ⊢
+    refine ⟨?_, trivial⟩
+    split at h <;> (cases h; simp)
+  | stopped stop =>
+    simp only at h ⊢
+    split at h
+    · rename_i hv
+      simp only [Option.some.injEq] at h
+      constructor
+      · split at h
+        · cases h; simp
+        · cases h; simp
+        · split at h
+          · cases h; simp
+          · split at h <;> (cases h; simp)
+      · simp only [hv, ↓reduceIte]
+        simpa using hv
+    · cases h
+
+theorem round_fin_none {prog : Program} {fuel : Nat} {st : Source.St}
+    (h : (round prog fuel st).fin = none) :
+    (round prog fuel st).turn.choices =
+        (round prog fuel st).visible.map (fun p => ({ text := p.text, tags := p.tags } : Line))
+      ∧ (round prog fuel st).visible ≠ [] := by
+  unfold round at h ⊢
+  generalize runTurn prog fuel st = r at h ⊢
+  rcases r with ⟨why, st1⟩
+  cases why with
+  | failed kind => cases h
+  | stopped stop =>
+    simp only at h ⊢
+    split at h
+    · cases h
+    · rename_i hv
+      simp only [hv, Bool.false_eq_true, ↓reduceIte, true_and]
+      simpa using hv
+
+theorem round_choices_length {prog : Program} {fuel : Nat} {st : Source.St}
+    (h : (round prog fuel st).fin = none) :
+    (round prog fuel st).turn.choices.length = (round prog fuel st).visible.length
+      ∧ (round prog fuel st).turn.choices ≠ [] := by
+  obtain ⟨h1, h2⟩ := round_fin_none h
+  rw [h1]
+  refine ⟨List.length_map _, ?_⟩
+  intro h0
+  exact h2 (List.map_eq_nil_iff.1 h0)
+
+@[simp] theorem mkReport_turns (prog : Program) (turns : List Turn) (st2 : Source.St) (s : Status) (e : List String)
+    (t : Turn) : (mkReport prog turns st2 s e t).turns = turns.reverse ++ [t] := by
+  simp [mkReport]
+
+@[simp] theorem mkReport_status (prog : Program) (turns : List Turn) (st2 : Source.St) (s : Status) (e : List String)
+    (t : Turn) : (mkReport prog turns st2 s e t).status = s := rfl
+
+/-- The turns already played stay, at least one is added and at most one per choice. -/
+theorem loop_turns (prog : Program) (fuel : Nat) (todo : List Nat) :
+    ∀ (n : Nat) (st : Source.St) (turns : List Turn),
+      ∃ more, (play.loop prog fuel n st todo turns).turns = turns.reverse ++ more
+        ∧ 1 ≤ more.length ∧ more.length ≤ todo.length + 1 := by
+  induction todo with
+  | nil =>
+    intro n st turns
+    rw [loop_eq]
+    cases hf : (round prog fuel st).fin with
+    | some se => exact ⟨[(round prog fuel st).turn], by simp, by simp, by simp⟩
+    | none =>
+      refine ⟨[(round prog fuel st).turn], ?_, by simp, by simp⟩
+      cases n <;> simp
+  | cons i rest ih =>
+    intro n st turns
+    rw [loop_eq]
+    cases hf : (round prog fuel st).fin with
+    | some se => exact ⟨[(round prog fuel st).turn], by simp, by simp, by simp⟩
+    | none =>
+      cases n with
+      | zero => exact ⟨[(round prog fuel st).turn], by simp, by simp, by simp⟩
+      | succ n =>
+        simp only
+        cases hv : (round prog fuel st).visible[i]? with
+        | none => exact ⟨[(round prog fuel st).turn], by simp, by simp, by simp⟩
+        | some p =>
+          simp only
+          obtain ⟨more, h1, h2, h3⟩ := ih n ((round prog fuel st).st2.choose p true) ((round prog fuel st).turn :: turns)
+          refine ⟨(round prog fuel st).turn :: more, ?_, by simp, by simp; omega⟩
+          rw [h1]; simp
+
+/-- **A transcript always has at least one turn.** -/
+theorem play_turns_nonempty (prog : Program) (cs : List Nat) (fuel : Nat) :
+    (play prog cs fuel).turns ≠ [] := by
+  obtain ⟨more, h1, h2, _⟩ := loop_turns prog fuel cs (cs.length + 1) (initial prog) []
+  unfold play
+  rw [h1]
+  cases more with
+  | nil => simp at h2
+  | cons a r => simp
+
+/-- ... and at most one more than there are choices. -/
+theorem play_turns_length (prog : Program) (cs : List Nat) (fuel : Nat) :
+    1 ≤ (play prog cs fuel).turns.length ∧ (play prog cs fuel).turns.length ≤ cs.length + 1 := by
+  obtain ⟨more, h1, h2, h3⟩ := loop_turns prog fuel cs (cs.length + 1) (initial prog) []
+  unfold play
+  rw [h1]; simp; omega
+
+/-- The prefix theorem on the loop: more input never changes the turns already reported
+    (the last one included). -/
+theorem loop_prefix (prog : Program) (fuel : Nat) (todo ds : List Nat) :
+    ∀ (n m : Nat) (st : Source.St) (turns : List Turn), todo.length ≤ n → (todo ++ ds).length ≤ m →
+      (play.loop prog fuel n st todo turns).turns <+: (play.loop prog fuel m st (todo ++ ds) turns).turns := by
+  induction todo with
+  | nil =>
+    intro n m st turns _ hm
+    rw [loop_eq prog fuel n, loop_eq prog fuel m]
+    cases hf : (round prog fuel st).fin with
+    | some se => exact List.prefix_refl _
+    | none =>
+      simp only [List.nil_append]
+      cases ds with
+      | nil => cases m <;> exact List.prefix_refl _
+      | cons i rest =>
+        cases m with
+        | zero => simp at hm
+        | succ m =>
+          simp only
+          cases hv : (round prog fuel st).visible[i]? with
+          | none => exact List.prefix_refl _
+          | some p =>
+            simp only
+            obtain ⟨more, h1, _, _⟩ := loop_turns prog fuel rest m ((round prog fuel st).st2.choose p true)
+              ((round prog fuel st).turn :: turns)
+            rw [h1, mkReport_turns]
+            simp
+  | cons i rest ih =>
+    intro n m st turns hn hm
+    rw [loop_eq prog fuel n, loop_eq prog fuel m]
+    cases hf : (round prog fuel st).fin with
+    | some se => exact List.prefix_refl _
+    | none =>
+      cases n with
+      | zero => simp at hn
+      | succ n =>
+        cases m with
+        | zero => simp at hm
+        | succ m =>
+          simp only [List.cons_append]
+          cases hv : (round prog fuel st).visible[i]? with
+          | none => exact List.prefix_refl _
+          | some p =>
+            simp only
+            apply ih
+            · simpa using hn
+            · simpa using hm
+
+/-- **The prefix theorem.**  Later choices cannot change earlier turns: every turn of the play
+    along `cs` — its last one included, which is complete before the next choice is read — is a
+    turn of the play along `cs ++ ds`, at the same position. -/
+theorem play_prefix (prog : Program) (cs ds : List Nat) (fuel : Nat) :
+    (play prog cs fuel).turns <+: (play prog (cs ++ ds) fuel).turns := by
+  unfold play
+  exact loop_prefix prog fuel cs ds _ _ _ _ (by omega) (by omega)
+
+/-- The weaker form asked for. -/
+theorem play_prefix_dropLast (prog : Program) (cs ds : List Nat) (fuel : Nat) :
+    (play prog cs fuel).turns.dropLast <+: (play prog (cs ++ ds) fuel).turns :=
+  (List.dropLast_prefix _).trans (play_prefix prog cs ds fuel)
+
+/-- In particular for one more choice `i`: the first `(play prog cs fuel).turns.length` turns of
+    `play prog (cs ++ [i]) fuel` are exactly the turns of `play prog cs fuel`
+    (whatever the status and whether or not `i` is in range). -/
+theorem play_take (prog : Program) (cs ds : List Nat) (fuel : Nat) :
+    (play prog (cs ++ ds) fuel).turns.take (play prog cs fuel).turns.length = (play prog cs fuel).turns := by
+  obtain ⟨t, ht⟩ := play_prefix prog cs ds fuel
+  rw [← ht]; simp
+
+/-- The form asked for: if the play along `cs` ends at a choice point and `i` is in range of the
+    choices offered in its last turn, the first `(play prog cs fuel).turns.length` turns of the play
+    along `cs ++ [i]` are exactly the turns of the play along `cs`.  (Neither hypothesis is needed:
+    `play_take`.) -/
+theorem play_choice_extends (prog : Program) (cs : List Nat) (i : Nat) (fuel : Nat) (last : Turn)
+    (_hs : (play prog cs fuel).status = .choice)
+    (_hlast : (play prog cs fuel).turns.getLast? = some last) (_hi : i < last.choices.length) :
+    (play prog (cs ++ [i]) fuel).turns.take (play prog cs fuel).turns.length = (play prog cs fuel).turns :=
+  play_take prog cs [i] fuel
+
+/-- A play that does not end at a choice point ignores any further input: the whole
+    transcript is the same. -/
+theorem loop_append_of_not_choice (prog : Program) (fuel : Nat) (todo ds : List Nat) :
+    ∀ (n m : Nat) (st : Source.St) (turns : List Turn), todo.length ≤ n → (todo ++ ds).length ≤ m →
+      (play.loop prog fuel n st todo turns).status ≠ .choice →
+      play.loop prog fuel m st (todo ++ ds) turns = play.loop prog fuel n st todo turns := by
+  induction todo with
+  | nil =>
+    intro n m st turns _ hm
+    rw [loop_eq prog fuel n, loop_eq prog fuel m]
+    cases hf : (round prog fuel st).fin with
+    | some se => intro _; rfl
+    | none =>
+      simp only [List.nil_append]
+      intro h
+      exact absurd rfl h
+  | cons i rest ih =>
+    intro n m st turns hn hm
+    rw [loop_eq prog fuel n, loop_eq prog fuel m]
+    cases hf : (round prog fuel st).fin with
+    | some se => intro _; rfl
+    | none =>
+      cases n with
+      | zero => simp at hn
+      | succ n =>
+        cases m with
+        | zero => simp at hm
+        | succ m =>
+          simp only [List.cons_append]
+          cases hv : (round prog fuel st).visible[i]? with
+          | none => intro _; rfl
+          | some p =>
+            simp only
+            apply ih
+            · simpa using hn
+            · simpa using hm
+
+theorem play_append_of_not_choice (prog : Program) (cs ds : List Nat) (fuel : Nat)
+    (h : (play prog cs fuel).status ≠ .choice) : play prog (cs ++ ds) fuel = play prog cs fuel := by
+  unfold play at h ⊢
+  exact loop_append_of_not_choice prog fuel cs ds _ _ _ _ (by omega) (by omega) h
+
+/-- Status `.choice` exactly when the last turn offers a choice; and then the input was
+    exhausted (one turn per choice, plus one) or the index it asked for is out of range. -/
+theorem loop_status_choice (prog : Program) (fuel : Nat) (todo : List Nat) :
+    ∀ (n : Nat) (st : Source.St) (turns : List Turn), todo.length ≤ n →
+      ∃ last, (play.loop prog fuel n st todo turns).turns.getLast? = some last ∧
+        ((play.loop prog fuel n st todo turns).status = .choice ↔ last.choices ≠ []) ∧
+        ((play.loop prog fuel n st todo turns).status = .choice →
+          (play.loop prog fuel n st todo turns).turns.length = turns.length + todo.length + 1
+          ∨ ∃ i, todo[(play.loop prog fuel n st todo turns).turns.length - turns.length - 1]? = some i
+              ∧ last.choices.length ≤ i) := by
+  induction todo with
+  | nil =>
+    intro n st turns _
+    rw [loop_eq prog fuel n]
+    refine ⟨(round prog fuel st).turn, ?_⟩
+    cases hf : (round prog fuel st).fin with
+    | some se =>
+      obtain ⟨s, e⟩ := se
+      obtain ⟨h1, h2⟩ := round_fin_some hf
+      simp [h1, h2]
+    | none =>
+      have := (round_choices_length hf).2
+      simp [this]
+  | cons i rest ih =>
+    intro n st turns hn
+    rw [loop_eq prog fuel n]
+    cases hf : (round prog fuel st).fin with
+    | some se =>
+      obtain ⟨s, e⟩ := se
+      obtain ⟨h1, h2⟩ := round_fin_some hf
+      exact ⟨(round prog fuel st).turn, by simp [h1, h2]⟩
+    | none =>
+      cases n with
+      | zero => simp at hn
+      | succ n =>
+        simp only
+        cases hv : (round prog fuel st).visible[i]? with
+        | none =>
+          have hl := round_choices_length hf
+          refine ⟨(round prog fuel st).turn, by simp, by simp [hl.2], ?_⟩
+          intro _
+          right
+          refine ⟨i, by simp, ?_⟩
+          rw [hl.1]
+          exact List.getElem?_eq_none_iff.1 hv
+        | some p =>
+          simp only
+          obtain ⟨last, h1, h2, h3⟩ := ih n ((round prog fuel st).st2.choose p true)
+            ((round prog fuel st).turn :: turns) (by simpa using hn)
+          obtain ⟨more, g1, g2, g3⟩ := loop_turns prog fuel rest n ((round prog fuel st).st2.choose p true)
+            ((round prog fuel st).turn :: turns)
+          refine ⟨last, h1, h2, ?_⟩
+          intro hs
+          rcases h3 hs with h | ⟨j, hj, hle⟩
+          · left; rw [h]; simp; omega
+          · right
+            refine ⟨j, ?_, hle⟩
+            rw [g1] at hj ⊢
+            simp only [List.length_append, List.length_reverse, List.length_cons] at hj ⊢
+            have : turns.length + 1 + more.length - turns.length - 1 = (turns.length + 1 + more.length - (turns.length + 1) - 1) + 1 := by omega
+            rw [this, List.getElem?_cons_succ]
+            exact hj
+
+/-- **Status `.choice`**: exactly when the last turn offers at least one choice; and then
+    either the list of choices was exhausted (`cs.length + 1` turns were played) or the choice
+    asked for at that turn is out of range. -/
+theorem play_status_choice_iff (prog : Program) (cs : List Nat) (fuel : Nat) :
+    ∃ last, (play prog cs fuel).turns.getLast? = some last ∧
+      ((play prog cs fuel).status = .choice ↔
+        last.choices ≠ [] ∧
+          ((play prog cs fuel).turns.length = cs.length + 1
+            ∨ ∃ i, cs[(play prog cs fuel).turns.length - 1]? = some i ∧ last.choices.length ≤ i)) := by
+  obtain ⟨last, h1, h2, h3⟩ := loop_status_choice prog fuel cs (cs.length + 1) (initial prog) [] (by omega)
+  refine ⟨last, h1, ?_⟩
+  constructor
+  · intro hs
+    refine ⟨h2.1 hs, ?_⟩
+    have := h3 hs
+    simp only [List.length_nil, Nat.zero_add, Nat.sub_zero] at this
+    exact this
+  · intro hh; exact h2.2 hh.1
+
+/-- The short form: status `.choice` iff the last turn offers a choice. -/
+theorem play_status_choice_iff' (prog : Program) (cs : List Nat) (fuel : Nat) :
+    (play prog cs fuel).status = .choice ↔
+      ∃ last, (play prog cs fuel).turns.getLast? = some last ∧ last.choices ≠ [] := by
+  obtain ⟨last, h1, h2, _⟩ := loop_status_choice prog fuel cs (cs.length + 1) (initial prog) [] (by omega)
+  constructor
+  · intro hs; exact ⟨last, h1, h2.1 hs⟩
+  · rintro ⟨l, hl, hc⟩
+    have : l = last := by
+      have := hl.symm.trans h1
+      simpa using this
+    exact h2.2 (this ▸ hc)
+
+/-- Taking a choice that is on offer gives exactly one more turn. -/
+theorem loop_extend (prog : Program) (fuel : Nat) (i : Nat) (todo : List Nat) :
+    ∀ (n m : Nat) (st : Source.St) (turns : List Turn) (last : Turn), todo.length ≤ n → todo.length + 1 ≤ m →
+      (play.loop prog fuel n st todo turns).status = .choice →
+      (play.loop prog fuel n st todo turns).turns.length = turns.length + todo.length + 1 →
+      (play.loop prog fuel n st todo turns).turns.getLast? = some last →
+      i < last.choices.length →
+      (play.loop prog fuel m st (todo ++ [i]) turns).turns.length = turns.length + todo.length + 2 := by
+  induction todo with
+  | nil =>
+    intro n m st turns last _ hm
+    rw [loop_eq prog fuel n, loop_eq prog fuel m]
+    cases hf : (round prog fuel st).fin with
+    | some se =>
+      obtain ⟨s, e⟩ := se
+      intro hs
+      exact absurd hs (round_fin_some hf).1
+    | none =>
+      simp only [List.nil_append]
+      intro _ _ hlast hi
+      have hlast : (round prog fuel st).turn = last := by simpa using hlast
+      subst hlast
+      cases m with
+      | zero => simp at hm
+      | succ m =>
+        simp only
+        rw [(round_choices_length hf).1] at hi
+        rw [List.getElem?_eq_getElem hi]
+        simp only
+        obtain ⟨more, g1, g2, g3⟩ := loop_turns prog fuel [] m
+          ((round prog fuel st).st2.choose ((round prog fuel st).visible[i]) true) ((round prog fuel st).turn :: turns)
+        rw [g1]
+        simp at g3 ⊢
+        omega
+  | cons j rest ih =>
+    intro n m st turns last hn hm
+    rw [loop_eq prog fuel n, loop_eq prog fuel m]
+    cases hf : (round prog fuel st).fin with
+    | some se =>
+      obtain ⟨s, e⟩ := se
+      intro hs
+      exact absurd hs (round_fin_some hf).1
+    | none =>
+      cases n with
+      | zero => simp at hn
+      | succ n =>
+        cases m with
+        | zero => simp at hm
+        | succ m =>
+          simp only [List.cons_append]
+          cases hv : (round prog fuel st).visible[j]? with
+          | none =>
+            simp only [mkReport_turns, List.length_append, List.length_reverse, List.length_cons, List.length_nil]
+            intro _ hl
+            omega
+          | some p =>
+            simp only
+            intro hs hl hlast hi
+            have := ih n m ((round prog fuel st).st2.choose p true) ((round prog fuel st).turn :: turns) last
+              (by simpa using hn) (by simpa using hm) hs (by rw [hl]; simp; omega) hlast hi
+            rw [this]; simp; omega
+
+/-- **Extension by a choice on offer.**  If the play along `cs` used up all of `cs` and stopped
+    at a choice point, and `i` is the index of a choice offered in its last turn, then the play
+    along `cs ++ [i]` consists of the same turns followed by exactly one more. -/
+theorem play_extend (prog : Program) (cs : List Nat) (i : Nat) (fuel : Nat) (last : Turn)
+    (hs : (play prog cs fuel).status = .choice)
+    (hlen : (play prog cs fuel).turns.length = cs.length + 1)
+    (hlast : (play prog cs fuel).turns.getLast? = some last)
+    (hi : i < last.choices.length) :
+    (play prog (cs ++ [i]) fuel).turns.take (cs.length + 1) = (play prog cs fuel).turns
+    ∧ (play prog (cs ++ [i]) fuel).turns.length = cs.length + 2 := by
+  constructor
+  · rw [← hlen]; exact play_take prog cs [i] fuel
+  · unfold play at hs hlen hlast ⊢
+    have := loop_extend prog fuel i cs (cs.length + 1) ((cs ++ [i]).length + 1) (initial prog) [] last
+      (by omega) (by simp) hs (by simpa using hlen) hlast hi
+    simpa using this
+
+/-! ## E. Non-vacuity (specification) -/
+
+/--
+```
+VAR n = 0
+-> start
+== start ==
+Pick one.
+* [Go] You went.
+  ~ n = n + 1
+  -> finish
+== finish ==
+Done {n}.
+-> END
+```
+-/
+def demo : Program :=
+  { globals := [("n", .int 0)],
+    root := [.mk none [.divert (.path ["start"] [])] []],
+    knots := [
+      { name := "start",
+        body := [.mk none [.line [.text "Pick one."]]
+          [.mk 0 false none none [] [.text "Go"] [.text "You went."]
+            [.mk none [.set "n" (.bin .add (.var "n") (.lit (.int 1))), .divert (.path ["finish"] [])] []]]] },
+      { name := "finish",
+        body := [.mk none [.line [.text "Done ", .print (.var "n"), .text "."], .divert .end] []] }] }
+
+def demoTurn1 : Turn :=
+  { lines := [{ text := "Pick one.", tags := [] }], choices := [{ text := "Go", tags := [] }] }
+def demoTurn2 : Turn :=
+  { lines := [{ text := "You went.", tags := [] }, { text := "Done 1.", tags := [] }], choices := [] }
+
+example : (play demo [] 100).turns = [demoTurn1] := by decide +kernel
+example : (play demo [] 100).status = .choice := by decide +kernel
+example : (play demo [0] 100).turns = [demoTurn1, demoTurn2] := by decide +kernel
+example : (play demo [0] 100).status = .end ∧ (play demo [0] 100).errors = [] := by decide +kernel
+example : (play demo [0] 100).globals = [("n", .int 1)] := by decide +kernel
+example : (play demo [0] 100).visits = [("start", 1), ("finish", 1)] := by decide +kernel
+-- an index out of range stops the play at the choice point; input after the end is ignored
+example : (play demo [3] 100).status = .choice ∧ (play demo [3] 100).turns = [demoTurn1] := by
+  decide +kernel
+example : (play demo [0, 0] 100).turns = [demoTurn1, demoTurn2] := by decide +kernel
+-- the hypotheses of `play_extend` hold for `demo`, `[]`, `0`
+example : (play demo [] 100).status = .choice ∧ (play demo [] 100).turns.length = ([] : List Nat).length + 1
+    ∧ (play demo [] 100).turns.getLast? = some demoTurn1 ∧ 0 < demoTurn1.choices.length := by
+  refine ⟨?_, ?_, ?_, ?_⟩ <;> decide +kernel
+-- arithmetic and text rules
+example : wrap32 2147483648 = -2147483648 ∧ wrap32 (-2147483649) = 2147483647 := by decide +kernel
+example : (match intOp .div (-2147483648) (-1) with | .error e => e == "div_zero" | _ => false) = true := by
+  decide +kernel
+example : cleanText "  a \t  b  " = "a b" := by decide +kernel
+example : trimBlanks "  a \t  b  " = "a \t  b" := by decide +kernel
+example : linesOf [.text "a ", .nl, .nl, .text " ", .nl, .tag " t ", .nl, .text "b"]
+    = [⟨"a", []⟩, ⟨"", ["t"]⟩, ⟨"b", []⟩] := by decide +kernel
+
+end Spec
+
+section Runtime
+open Ink.Story
+
+/-! ## D. Exactly once, on the model of the runtime -/
+
+/-- Rewinding: the state is the snapshot again — everything done since it was taken is undone. -/
+theorem restoreSnapshot_state {st : Story} {snap : StoryState} (h : st.snapshot = some snap) :
+    (st.restoreSnapshot).state = { snap with patching := false } ∧ (st.restoreSnapshot).snapshot = none := by
+  unfold Story.restoreSnapshot
+  rw [h]
+  exact ⟨rfl, rfl⟩
+
+/-- Discarding the snapshot: what was done stays. -/
+theorem discardSnapshot_keeps (st : Story) :
+    (st.discardSnapshot).state = { st.state with patching := false } ∧ (st.discardSnapshot).snapshot = none :=
+  ⟨rfl, rfl⟩
+
+/-- Taking a snapshot saves the whole state. -/
+theorem stateSnapshot_saves (st : Story) :
+    (st.stateSnapshot).snapshot = some st.state ∧ (st.stateSnapshot).state = { st.state with patching := true } :=
+  ⟨rfl, rfl⟩
+
+/-- Whatever actions run after a snapshot was taken: the rewind gives back the state
+    at the moment of the snapshot (all of it: output, variables, visit and turn counts, choices,
+    call stack, errors, warnings). -/
+theorem lookahead_undone {α β : Type} (st : Story) (m : M α) (m' : M β) :
+    ((st.stateSnapshot.runM m).2.restoreSnapshot).state = { st.state with patching := false }
+    ∧ (((st.stateSnapshot.runM m).2.runM m').2.restoreSnapshot).state = { st.state with patching := false } := by
+  constructor
+  · exact (restoreSnapshot_state (snap := st.state) (by rw [runM_snapshot]; rfl)).1
+  · exact (restoreSnapshot_state (snap := st.state) (by rw [runM_snapshot, runM_snapshot]; rfl)).1
+
+theorem cssEnd_fst (st3 : Story) : (C08.cssEnd st3).1 = .ok false := by
+  unfold C08.cssEnd
+  split
+  · split <;> rfl
+  · rfl
+
+/-- The tail of a step ends the line (`ok true`) only by rewinding. -/
+theorem cssTail_rewind {st2 s1 : Story} (h : C08.cssTail st2 = (.ok true, s1)) :
+    ∃ snap, st2.snapshot = some snap ∧ s1 = st2.restoreSnapshot
+      ∧ (calcNewlineChange (utf8 snap.currentText) (utf8 st2.state.currentText)
+            snap.currentTags.length st2.state.currentTags.length == .extendedBeyondNewline
+          || st2.sawUnsafe) = true := by
+  rw [C08.cssTail_eq] at h
+  split at h
+  · cases h
+  · split at h
+    · rename_i snap hs
+      split at h
+      · rename_i hc
+        refine ⟨snap, hs, ?_, hc⟩
+        cases h; rfl
+      · split at h
+        · have := cssEnd_fst st2.discardSnapshot
+          rw [h] at this; cases this
+        · have := cssEnd_fst st2
+          rw [h] at this; cases this
+    · have := cssEnd_fst st2
+      rw [h] at this; cases this
+
+theorem cssMid_rewind {st1 s1 : Story} (h : C08.cssMid st1 = (.ok true, s1)) :
+    ∃ snap, st1.snapshot = some snap ∧ s1.state = { snap with patching := false } ∧ s1.snapshot = none := by
+  unfold C08.cssMid at h
+  simp only at h
+  split at h
+  · cases h
+  · cases h
+  · rename_i st2 heq
+    obtain ⟨snap, hs, rfl, _⟩ := cssTail_rewind h
+    have hsn : st2.snapshot = st1.snapshot := by
+      split at heq
+      · have := runM_snapshot st1 (tryFollowDefaultInvisibleChoice st1.env)
+        rw [heq] at this; exact this
+      · cases heq; rfl
+    exact ⟨snap, hsn ▸ hs, (restoreSnapshot_state hs).1, (restoreSnapshot_state hs).2⟩
+
+/-- **A step that ends a line does so by rewinding**: the only way for `continueSingleStep` to
+    report the end of a line is the look-ahead branch (a snapshot is held, and the text ran on
+    beyond the line break or something that cannot be undone was met); the resulting state is the
+    state saved at the line break, so nothing that was executed while looking ahead — assignments,
+    visit and turn counts, generated choices, output — is carried over.  The next `continue`
+    executes it again from that state: once. -/
+theorem continueSingleStep_rewind {st s1 : Story} (h : st.continueSingleStep = (.ok true, s1)) :
+    ∃ snap, st.snapshot = some snap ∧ s1.state = { snap with patching := false } ∧ s1.snapshot = none := by
+  rw [C08.css_eq] at h
+  have hsn := runM_snapshot st (step st.env)
+  rcases hr : st.runM (step st.env) with ⟨r, st1⟩
+  rw [hr] at h hsn
+  cases r with
+  | err k m => cases h
+  | panic p => cases h
+  | ok u =>
+    cases u
+    obtain ⟨snap, hs, h2, h3⟩ := cssMid_rewind h
+    exact ⟨snap, hsn ▸ hs, h2, h3⟩
+
+/-- What a snapshot can become in one step: kept as it is, dropped, or replaced by a snapshot
+    of the present state. -/
+def SnapStep (before : Option StoryState) (s1 : Story) : Prop :=
+  s1.snapshot = before ∨ s1.snapshot = none
+    ∨ ∃ s', s1.snapshot = some s' ∧ s1.state = { s' with patching := true }
+
+theorem cssEnd_snap (st3 : Story) : SnapStep st3.snapshot (C08.cssEnd st3).2 := by
+  unfold C08.cssEnd
+  split
+  · split
+    · split
+      · exact .inr (.inr ⟨st3.state, rfl, rfl⟩)
+      · exact .inl rfl
+    · exact .inr (.inl rfl)
+  · exact .inl rfl
+
+theorem SnapStep.of_none {s1 : Story} {o : Option StoryState} (h : SnapStep none s1) : SnapStep o s1 := by
+  rcases h with h | h | h
+  · exact .inr (.inl h)
+  · exact .inr (.inl h)
+  · exact .inr (.inr h)
+
+theorem cssTail_snap (st2 : Story) : SnapStep st2.snapshot (C08.cssTail st2).2 := by
+  rw [C08.cssTail_eq]
+  split
+  · exact .inl rfl
+  · split
+    · split
+      · exact .inr (.inl (restoreSnapshot_snapshot st2))
+      · split
+        · exact (cssEnd_snap st2.discardSnapshot).of_none
+        · exact cssEnd_snap st2
+    · exact cssEnd_snap st2
+
+/-- **Looking ahead never alters the snapshot**: after a step the snapshot is the one held
+    before, or none, or a new one of the present state.  So the state a later rewind goes back
+    to is exactly the state at the line break. -/
+theorem continueSingleStep_snapshot (st : Story) :
+    SnapStep st.snapshot (st.continueSingleStep).2 := by
+  rw [C08.css_eq]
+  have hsn := runM_snapshot st (step st.env)
+  rcases hr : st.runM (step st.env) with ⟨r, st1⟩
+  rw [hr] at hsn
+  simp only at hsn
+  cases r with
+  | err k m => exact .inl hsn
+  | panic p => exact .inl hsn
+  | ok u =>
+    cases u
+    simp only
+    unfold C08.cssMid
+    simp only
+    split
+    · rename_i st2 heq
+      refine .inl ?_
+      split at heq
+      · have := runM_snapshot st1 (tryFollowDefaultInvisibleChoice st1.env)
+        rw [heq] at this; exact this.trans hsn
+      · cases heq
+    · rename_i st2 heq
+      refine .inl ?_
+      split at heq
+      · have := runM_snapshot st1 (tryFollowDefaultInvisibleChoice st1.env)
+        rw [heq] at this; exact this.trans hsn
+      · cases heq
+    · rename_i st2 heq
+      have hs2 : st2.snapshot = st.snapshot := by
+        split at heq
+        · have := runM_snapshot st1 (tryFollowDefaultInvisibleChoice st1.env)
+          rw [heq] at this; exact this.trans hsn
+        · cases heq; exact hsn
+      rw [← hs2]
+      exact cssTail_snap st2
+
+/-- `Ahead a b`: the loop gets from `a` to `b` by steps that do not end the line. -/
+inductive Ahead : Story → Story → Prop where
+  | refl (a : Story) : Ahead a a
+  | step {a b c : Story} : Ahead a b → (C08.decFuel b).continueSingleStep = (.ok false, c) → Ahead a c
+
+/-- **The loop ends a line only by rewinding** to the snapshot held at that moment. -/
+theorem stepLoop_newline (b : Option Nat) (F : Nat) : ∀ (k : Nat) (st s1 : Story),
+    stepLoop b F k st = (.ok .newline, s1) →
+    ∃ st' snap, Ahead st st' ∧ st'.snapshot = some snap
+      ∧ s1.state = { snap with patching := false } ∧ s1.snapshot = none := by
+  induction F with
+  | zero => intro k st s1 h; cases h
+  | succ F ih =>
+    intro k st s1 h
+    rw [C08.stepLoop_succ] at h
+    cases hi : C08.iter st with
+    | done r s =>
+      rw [hi] at h
+      simp only [Prod.mk.injEq] at h
+      obtain ⟨rfl, rfl⟩ := h
+      -- the iteration ended the loop with `newline`: the step returned `ok true`
+      unfold C08.iter at hi
+      split at hi
+      · cases hi
+      · rcases hc : (C08.decFuel st).continueSingleStep with ⟨r, s⟩
+        rw [hc] at hi
+        cases r with
+        | panic p => cases hi
+        | err k m => cases hi
+        | ok bb =>
+          cases bb with
+          | false => cases hi
+          | true =>
+            simp only [C08.Iter.done.injEq, true_and] at hi
+            subst hi
+            obtain ⟨snap, h1, h2, h3⟩ := continueSingleStep_rewind hc
+            exact ⟨st, snap, .refl st, h1, h2, h3⟩
+    | more st1 =>
+      rw [hi] at h
+      simp only at h
+      split at h
+      · cases h
+      · split at h
+        · cases h
+        · obtain ⟨st', snap, ha, h1, h2, h3⟩ := ih _ _ _ h
+          refine ⟨st', snap, ?_, h1, h2, h3⟩
+          have hstep := C08.iter_more st st1 hi
+          -- prepend the step
+          clear h h1 h2 h3 ih
+          induction ha with
+          | refl => exact .step (.refl st) hstep
+          | step _ hc ih' => exact .step ih' hc
+
+/-! ## E. Non-vacuity (runtime model) -/
+
+/-- "a", line break, `~ temp x = 1`, "b", line break, done. -/
+def exRoot4 : Obj :=
+  .container none 0 [.val (.str "a"), .val (.str "\n"),
+    .cmd .evalStart, .val (.int 1), .cmd .evalEnd, .varAss "x" true false,
+    .val (.str "b"), .val (.str "\n"), .cmd .done] []
+def exStory4 : Story := { C08.exStory2 with root := exRoot4 }
+
+/-- the numbers of temporaries in the frames of the call stack -/
+def tempCounts (s : Story) : List Nat :=
+  s.core.callstack.threads.flatMap (fun t => t.callstack.map (·.temps.length))
+
+-- six steps into the first `continue`: the line break was seen, a snapshot is held and the
+-- look-ahead has executed the assignment (one temporary) …
+example : (match stepLoop (some 6) 20 0 (exStory4.beginContinue true) with
+    | (.ok .outOfTime, s) => s.state.currentText == "a\n" && s.snapshot.isSome && tempCounts s == [1]
+    | _ => false) = true := by decide +kernel
+-- … the seventh step sees "b", ends the line and rewinds: the assignment is undone (it will be
+-- executed by the next `continue`: once)
+example : (match stepLoop none 20 0 (exStory4.beginContinue false) with
+    | (.ok .newline, s) => s.state.currentText == "a\n" && s.snapshot.isNone && tempCounts s == [0]
+    | _ => false) = true := by decide +kernel
+-- so the hypothesis of `stepLoop_newline` is satisfiable
+example : ∃ s, stepLoop none 20 0 (exStory4.beginContinue false) = (.ok .newline, s) := by
+  have h : (match stepLoop none 20 0 (exStory4.beginContinue false) with
+      | (.ok .newline, _) => true
+      | _ => false) = true := by decide +kernel
+  generalize stepLoop none 20 0 (exStory4.beginContinue false) = x at h
+  split at h
+  · exact ⟨_, rfl⟩
+  · cases h
+
+end Runtime
+
 end C01
 end Ink
